@@ -735,11 +735,9 @@ impl World for RealComp {
         let approves = |h: usize, pick: fn(&(bool, bool)) -> bool| (0..2).all(|k| !pre.reg[h][k] || pick(&pre.flags[k]));
         match op {
             COp::Register { hook: h, m: k } => {
-                ensure!(!pre.reg[*h][*k], "module-registry", "{:?} succeeded although the module is registered", op);
                 x.reg[*h][*k] = true;
             }
             COp::Unregister { hook: h, m: k } => {
-                ensure!(pre.reg[*h][*k], "module-registry", "{:?} succeeded although the module is not registered", op);
                 x.reg[*h][*k] = false;
             }
             COp::ModuleFlags { m: k, transfer, create } => x.flags[*k] = (*transfer, *create),
